@@ -37,6 +37,24 @@ def build(case):
         a.integrate(dtype(tf + 0.75 * (tf - t0)), callback=b)       # the record extends beyond the configured (t0, tf)
     elif case["hist"] == "partial":
         a.integrate(dtype(t0 + 0.375 * (tf - t0)), callback=b)
+    elif case["hist"] == "reset":
+        a.integrate(dtype(tf), callback=b)
+        a.reset()                                                    # one recorded sample again; the storage of the old run may still be around
+    elif case["hist"] == "reset-partial":
+        a.integrate(dtype(tf), callback=b)
+        a.reset()
+        a.integrate(dtype(t0 + 0.375 * (tf - t0)), callback=b)       # a shorter record than the one before the reset
+    elif case["hist"] == "failed":
+        st = dict(n=0)
+
+        def boom(s):
+            st["n"] += 1
+            if st["n"] == 3:
+                raise RuntimeError("boom")
+        try:
+            a.integrate(dtype(tf), callback=[boom, b])
+        except Exception:
+            pass
     return a, dtype
 
 
@@ -199,7 +217,7 @@ def run(ctx):
     for m, dt0 in (("EulerSolver", 0.25), ("RK4Solver", 0.25), ("RK45CKSolver", 0.25), ("DOPRI45", 0.5)) + ((("ABAs5o6HSolver", 0.25), ("ImplicitMidpoint", 0.25), ("RadauIIA5", 0.25)) if not ctx.quick else ()):
         for sp in spans:
             for dense in (False, True):
-                for hist in ("one", "continued", "extended", "partial", "none"):
+                for hist in ("one", "continued", "extended", "partial", "none", "reset", "reset-partial", "failed"):
                     for dn in (("float64",) if ctx.quick else ("float64", "float32", "longdouble")):
                         cases.append(dict(method=m, span=list(sp), dt0=dt0, dense=dense, hist=hist, dtype=dn))
                         if hist != "none":
